@@ -68,6 +68,17 @@ def main(argv):
         hits = common.forbidden_token_scan()
         if hits:
             proof_problems.append({"kind": "forbidden-token", "hits": hits[:20]})
+    leanchecker = None
+    if ok and tier == "thorough" and not replay:
+        # independent re-check of the compiled proof module (and everything it imports) by Lean's leanchecker
+        try:
+            with common._Lock("lake.lock"):
+                rc_lc, out_lc = common.run_cmd(["lake", "env", "leanchecker", mod.LEAN_MODULE], common.LEAN_DIR, timeout=1800)
+            leanchecker = "ok" if rc_lc == 0 else "failed"
+            if rc_lc != 0:
+                proof_problems.append({"kind": "leanchecker", "log": out_lc[-2000:]})
+        except Exception as e:  # noqa
+            leanchecker = f"not run: {e!r}"
     discharged = sum(1 for t in obligations if audit["axioms"].get(t) is not None and set(audit["axioms"][t]) <= common.ALLOWED_AXIOMS) if ok else 0
     proof_ok = not proof_problems
 
@@ -150,6 +161,7 @@ def main(argv):
             "checker_cmd": f"cd lean && lake build {mod.LEAN_MODULE} && lake env lean ../out/audit_{prop}.lean  # #print axioms per theorem",
             "trusted_base": COMMON_TRUSTED + list(getattr(mod, "TRUSTED", [])),
             "theorems": {t: audit["axioms"].get(t) for t in obligations},
+            "leanchecker": leanchecker,
             "evaluations": ctx.evaluations,
             "distinct_nontrivial": len(ctx.nontrivial),
             "rule": getattr(mod, "RULE", ""),
